@@ -4,7 +4,7 @@ import numpy as np
 from symnp.runner import Case
 from harness import mm_common as mm
 
-OUTSIDE = ('log_pdf / posterior / log-likelihood invariance and the vMF streams (vMFMM, embedding stream of vMF-cACGMM) are not decided: the solver stays inconclusive on the square-root / exp terms, they follow from the decided invariance of the normalised outer products only by inspection; zero frames (excluded by the property); N > 2, D > 2, K > 2; iterations > 1 at API level (one EM step from arbitrary '
+OUTSIDE = ('cACG / cACGMM log_pdf, posterior and log-likelihood invariance and the vMF mixture streams (vMFMM, embedding stream of vMF-cACGMM) are not decided: the solver stays inconclusive on the square-root / exp terms, they follow from the decided invariance of the normalised outer products only by inspection; zero frames (excluded by the property); N > 2, D > 2, K > 2; iterations > 1 at API level (one EM step from arbitrary '
            'state composes); complex Bingham trainer (numeric root finder): only its normaliser / scatter; rounding at |c| ~ 1e+-100 '
            '(reals): gains are symbolic over [1e-100, 1e100] but arithmetic is exact')
 
@@ -107,6 +107,19 @@ def h_fit(env, model='cacgmm', K=2, N=2, D=2):
                 s = env.el(emb, (0, n, d)) * env.el(emb, (0, n, d)) + s
             env.assume(s >= 0.05, 'embedding frames have squared norm >= 0.05')
         cpos = env.real('cp', (N,), lo=1e-100, hi=1e100)
+        # oracle first: |c e| = c |e| for c > 0 (lemma injection), norms bounded away from zero
+        for n in range(N):
+            S = None; S2 = None
+            for d in range(2):
+                e0 = env.el(emb, (0, n, d))
+                t = e0 * e0
+                t2 = (e0 * env.el(cpos, (n,))) * (e0 * env.el(cpos, (n,)))
+                S = t if S is None else S + t
+                S2 = t2 if S2 is None else S2 + t2
+            sn, sn2 = env.sqrt(S), env.sqrt(S2)
+            env.prove_and_use('embedding_norm_ge_0.2[%d]' % n, sn >= 0.2)
+            env.prove_and_use('norm_of_scaled_embedding_is_scaled_norm[%d]' % n, sn2 == env.el(cpos, (n,)) * sn)
+            env.prove_and_use('scaled_embedding_norm_ge_1e-101[%d]' % n, sn2 >= 1e-101)
         init = env.real('g', (1, K, N), lo=0.05, hi=1)
         m1 = mm.fit(model, y, init, iterations=1, emb=emb)
         m2 = mm.fit(model, y, init, iterations=1, emb=emb * cpos[None, :, None])
@@ -146,6 +159,12 @@ def cases(tier):
     for which in ['cacg', 'watson', 'bingham']:
         cs.append(Case('normaliser/%s' % which, h_normaliser, dict(which=which, N=1, D=2), bounds='D=2, symbolic frame and gain', timeout_ms=120000))
     cs.append(Case('normaliser/vmf_log_pdf', h_vmf_normaliser, dict(N=1, D=2), bounds='D=2 positive gain', timeout_ms=60000))
+    cs.append(Case('log_pdf/cwmm', h_log_pdf, dict(model='cwmm', N=1, D=2), bounds='CWMM.predict: D=2 N=1 K=2 arbitrary model parameters', timeout_ms=120000))
+    import os
+    if os.environ.get('VERIF_TRY_EXTRAS') == '1':
+        cs.append(Case('fit/vmfcacgmm', h_fit, dict(model='vmfcacgmm', K=2, N=2, D=2), bounds='F=1 K=2 N=2 D=2 E=2 one EM iteration, positive gains on the embeddings', timeout_ms=120000, lazy=True, cosim=2, budget_s=900))
+        for model in ['cacg', 'cacgmm']:
+            cs.append(Case('log_pdf/%s' % model, h_log_pdf, dict(model=model, N=1, D=2), bounds='D=2 N=1 arbitrary model parameters', timeout_ms=120000))
     if tier != 'quick':
         cs.append(Case('fit/cacgmm', h_fit, dict(model='cacgmm', K=2, N=2, D=2), bounds='K=2 N=2 D=2 one EM iteration', timeout_ms=300000, lazy=True, cosim=2, budget_s=3000))
         cs.append(Case('fit/cwmm', h_fit, dict(model='cwmm', K=2, N=2, D=2), bounds='K=2 N=2 D=2 one EM iteration', timeout_ms=300000, lazy=True, cosim=2, budget_s=3000))
